@@ -30,6 +30,8 @@ def walk_own(fn):
     stack = list(fn.body)
     while stack:
         n = stack.pop()
+        if isinstance(n, (ast.FunctionDef, ast.AsyncFunctionDef)):
+            continue            # a nested definition among the function's own statements
         yield n
         for ch in ast.iter_child_nodes(n):
             if isinstance(ch, (ast.FunctionDef, ast.AsyncFunctionDef)):
